@@ -61,6 +61,13 @@ Fixpoint remove_at (i : nat) (d : list item) : list item :=
   | it :: d' => match i with O => d' | S j => it :: remove_at j d' end
   end.
 
+(* the list without its first element satisfying f (what position + remove amount to; see CacheProofs.position_find) *)
+Fixpoint remove_first (f : item -> bool) (d : list item) : list item :=
+  match d with
+  | [] => []
+  | x :: d' => if f x then d' else x :: remove_first f d'
+  end.
+
 (* ---- Cache::get ---- *)
 Definition get (c : cache) (r : list N) (h : N) (now : N) : outcome (option item) :=
   match position r h (c_data c) with
